@@ -59,14 +59,19 @@ def gen_case(rng: random.Random, tier: str) -> dict:
         x = rng.random()
         if x < 0.6:
             dk = rng.random()
-            if dk < 0.7:
+            # few names: a page created from its template by one move is the (existing,
+            # pattern-matching) destination of a later one
+            few = ["alpha", "bravo", "charlie"]
+            if dk < 0.6:
                 dest: Any = {"existing": rng.randrange(1000)}
-            elif dk < 0.82:
-                dest = {"missing": f"new/{rng.choice(gen.PLAIN).lower()}.zo"}
+            elif dk < 0.8:
+                dest = {"missing": f"new/{rng.choice(few)}.zo"}
             elif dk < 0.92:
-                dest = {"missing": f"hdr/{rng.choice(gen.PLAIN).lower()}.zo"}
+                dest = {"missing": f"hdr/{rng.choice(few)}.zo"}
             else:
-                dest = {"missing": f"other/{rng.choice(gen.PLAIN).lower()}.zo"}
+                dest = {"missing": f"other/{rng.choice(few)}.zo"}
+            # the .zo extension of the destination is optional on the command line
+            dest["no_ext"] = rng.random() < 0.35
             steps.append({"op": "move", "note": rng.randrange(1000), "dest": dest, "marker": rng.choice([None, None, "x", "~"])})
         elif x < 0.8:
             steps.append(_idx.gen_user_step(rng, world["features"], _EDIT_WEIGHTS))
@@ -74,6 +79,11 @@ def gen_case(rng: random.Random, tier: str) -> dict:
             steps.append({"op": "rename", "src": rng.randrange(1000), "dst": rng.choice(gen.PAGE_NAMES) + "r" + str(rng.randrange(3))})
         else:
             steps.append({"op": "day", "days": rng.choice([1, 2, 40])})
+    if rng.random() < 0.3:
+        # two moves into the same page that the first of them creates from its template
+        td = rng.choice(["new/", "hdr/"]) + rng.choice(["alpha", "bravo", "charlie"]) + ".zo"
+        for _ in range(2):
+            steps.insert(rng.randrange(len(steps) + 1), {"op": "move", "note": rng.randrange(1000), "dest": {"missing": td, "no_ext": rng.random() < 0.5}, "marker": rng.choice([None, "x", "~"])})
     if not any(s["op"] == "move" for s in steps):
         steps.append({"op": "move", "note": rng.randrange(1000), "dest": {"existing": rng.randrange(1000)}, "marker": None})
     return {
@@ -328,8 +338,10 @@ def execute(case: dict, scratch: str) -> dict:
             dest = cands[st["dest"]["existing"] % len(cands)]
         else:
             dest = st["dest"]["missing"]
-            if os.path.exists(os.path.join(sim.zdir, dest)):
+            if dest == note["page"]:
                 continue
+            if os.path.exists(os.path.join(sim.zdir, dest)):
+                rec.probe("destination-exists-and-matches-a-template-pattern")
         before = _snapshot(sim)
         dest_old = before["files"].get(dest)
         if dest_old is None:
@@ -344,7 +356,9 @@ def execute(case: dict, scratch: str) -> dict:
             else:
                 rec.probe("missing-destination-without-template")
             twin.destroy()
-        real = {"op": "move", "zid": note["zid"], "dest": dest, "marker": st.get("marker")}
+        arg = dest[:-3] if st["dest"].get("no_ext") else dest
+        rec.probe("destination-named-without-extension", int(arg != dest))
+        real = {"op": "move", "zid": note["zid"], "dest": arg, "marker": st.get("marker")}
         o = sim.run(real)
         rec.proc(real, None, o, sim)
         if o.status != "ok":
